@@ -179,3 +179,9 @@ package rgsw
 //@   property C20
 //@   dyn ct *rlwe.Ciphertext
 //@   ensures true
+
+// ---- the guard of the 32-bit path (property C20, finding F52): when it holds, the 2*digits products of a
+// ---- value below q with a value below 6q that the path accumulates in 64 bits cannot wrap
+//@ func fitsExternalProduct32Bit
+//@   property C20
+//@   ensures implies(result, q < 536870912 && 1 <= digits && digits <= 64 && 12 * digits * (q * q) < W) by mono_le(q, 536870911, q); mul_pos(q, q); mulhyp((q * q) % W, q * q, (12 * (digits % W)) % W); mulhyp((12 * (digits % W)) % W, 12 * digits, q * q)
